@@ -1127,6 +1127,20 @@ def translate_header(path):
                      "whose branches both go to rebalParent")
     asts["removeHead"] = (items, [("ptr", m.group(1))], "ptrtag")
     order2.append("removeHead")
+    # the loop behind the label rebalParentUpwards: `while(parent) { ... }`
+    mu = re.search(r"\brebalParentUpwards\s*:", rbody)
+    if not mu:
+        raise Refuse("remove: label rebalParentUpwards not found")
+    toks = tokenize(rbody[mu.end():])
+    p = P(toks, "removeUpwards")
+    loop = p.stmt()
+    if loop[0] != "for" or loop[1] is not None or loop[3]:
+        raise Refuse("removeUpwards: the statement behind `rebalParentUpwards:` is not a while loop")
+    norm["removeUpwards"] = toks[:p.i]
+    loop, hoisted = hoist_loop_locals(loop)
+    pre = free_locals([loop], hoisted, ["parent"], rbody[:mu.start()], "removeUpwards")
+    asts["removeUpwards"] = (pre + [loop], [("ptr", "parent")], "void")
+    order2.append("removeUpwards")
     pure_of = {fn: False for fn in FUNCS}
     for fn in order2:
         items, params, ret = asts[fn]
@@ -1152,6 +1166,54 @@ def translate_header(path):
         binders = (" (fuel : Nat)" if info[fn]["fuel"] else "") + " (h : Heap)" + (" (c : Nat)" if info[fn]["counting"] else "") + tr.binders([(n, t) for t, n in params])
         out[fn] = "\n".join(tr.loops) + ("\n" if tr.loops else "") + f"def {fn}{binders} : {tr.res_type()} :=\n{body_l}"
     return out, norm, order2
+
+
+def hoist_loop_locals(loop):
+    """a scalar declared at the top level of a loop body is re-initialised in every iteration: it is the same as a local
+    declared before the loop and assigned there (normal form: the loop function always has the same parameters)"""
+    hoisted = []
+    body = loop[1] if loop[0] == "dowhile" else loop[4]
+    if body[0] == "block":
+        nb = []
+        for st in body[1]:
+            if st[0] == "decl" and st[3] is not None and st[1] in ("usize", "ssize", "Item*"):
+                hoisted.append(("decl", st[1], st[2], None))
+                nb.append(("expr", ("assign", ("id", st[2]), st[3])))
+            else:
+                nb.append(st)
+        body = ("block", nb)
+    loop = ("dowhile", body, loop[2]) if loop[0] == "dowhile" else loop[:4] + (body,)
+    return loop, hoisted
+
+
+def free_locals(items, hoisted, params, text_before, fn):
+    """uninitialised declarations for the plain locals the fragment uses and that are declared in front of it"""
+    used, declared = set(), set()
+
+    def walk(n):
+        if isinstance(n, tuple):
+            if n and n[0] == "id":
+                used.add(n[1])
+            if n and n[0] == "decl":
+                declared.add(n[2])
+            if n and n[0] == "field":
+                walk(n[1])
+                return
+            for x in n[1:]:
+                walk(x)
+        elif isinstance(n, list):
+            for x in n:
+                walk(x)
+    walk(items)
+    pre = []
+    for v in sorted(used - declared - set(params) - {d[2] for d in hoisted}):
+        if v in FUNCS or v == "this":
+            continue
+        md = re.search(r"\b(usize|ssize|Item\s*\*)\s+" + v + r"\s*;", text_before)
+        if not md:
+            raise Refuse(f"{fn}: `{v}` is neither declared in the loop nor a plain local declared before it")
+        pre.append(("decl", re.sub(r"\s+", "", md.group(1)), v, None))
+    return sorted(pre + hoisted, key=lambda d: d[2])
 
 
 def always_goto(s, label):
